@@ -148,6 +148,15 @@ func P1() []*Program {
 	add("match-fixstr", prog("", append([]*Packet{Root("Msg", Fx(2, "Kind", nil), Mt("Kind", "Body", K("Alpha", `"AA"`), K("Beta", `"BB"`)))}, pay()...)...))
 	add("match-list2", prog("", append([]*Packet{Root("Msg", Sc("u16", "Kind"), Mt("Kind", "Body", K("Alpha", "1", "2"), K("Beta", "3")))}, pay()...)...))
 	add("match-list6", prog("", append([]*Packet{Root("Msg", Sc("u16", "Kind"), Mt("Kind", "Body", K("Alpha", "1", "2", "3", "4", "5", "6"), K("Beta", "9")))}, pay()...)...))
+	for _, n := range []int{5, 10, 11, 15} {
+		var keys []string
+		for k := 1; k <= n; k++ {
+			keys = append(keys, fmt.Sprint(k))
+		}
+		add(fmt.Sprintf("match-list%d", n), prog("", append([]*Packet{Root("Msg", Sc("u16", "Kind"), Mt("Kind", "Body", K("Alpha", keys...), K("Beta", "99")))}, pay()...)...))
+	}
+	add("match-strlist10", prog("", append([]*Packet{Root("Msg", Ds("Kind"), Mt("Kind", "Body", K("Alpha", `"A"`, `"B"`, `"C"`, `"D"`, `"E"`, `"F"`, `"G"`, `"H"`, `"I"`, `"J"`), K("Beta", `"Z"`)))}, pay()...)...))
+	add("match-dup-then-other", prog("", append([]*Packet{Root("Msg", Sc("u16", "Kind"), Mt("Kind", "Body", K("Alpha", "1"), K("Alpha", "2"), K("Beta", "3"), K("Empty", "4")))}, pay()...)...))
 	add("match-strlist", prog("", append([]*Packet{Root("Msg", Ds("Kind"), Mt("Kind", "Body", K("Alpha", `"A"`, `"B"`), K("Beta", `"C"`)))}, pay()...)...))
 	add("match-samepacket", prog("", append([]*Packet{Root("Msg", Sc("u16", "Kind"), Mt("Kind", "Body", K("Alpha", "1"), K("Beta", "2"), K("Alpha", "3")))}, pay()...)...))
 	add("match-list1", prog("", append([]*Packet{Root("Msg", Sc("u16", "Kind"), Mt("Kind", "Body", KL("Alpha", "1"), K("Beta", "2")))}, pay()...)...))
@@ -397,6 +406,10 @@ func P5() []*Program {
 	out = append(out, prog("P5/many-refs", append([]*Packet{Root("Msg", Ob("Detail", "D1"), Ob("Detail", "D2"), Rep(Ob("Alpha", "As")), Rep(Ob("Beta", "Bs")), Ob("Gamma", ""))}, common()...)...))
 	out = append(out, prog("P5/match-in-sub", append([]*Packet{Root("Msg", Sc("u8", "Ver"), Ob("Frame", "")),
 		Pk("Frame", Ds("Kind"), Mt("Kind", "Body", K("Alpha", `"A"`), K("Beta", `"B"`, `"C"`)))}, common()...)...))
+	out = append(out, prog("P5/same-inline-name", Root("Msg", Ob("Buy", ""), Ob("Sell", "")),
+		Pk("Buy", Sc("u8", "B"), In("Leg", Sc("u16", "Px"), Ds("Sym"))), Pk("Sell", In("Leg", Sc("u32", "Qty")), Sc("u8", "S"))))
+	out = append(out, prog("P5/three-match-keys", append([]*Packet{Root("Msg", Sc("u16", "KindA"), Sc("u8", "KindB"), Ds("KindC"),
+		Mt("KindA", "BodyA", K("Alpha", "1"), K("Beta", "2")), Mt("KindB", "BodyB", K("Gamma", "1"), K("Empty", "2")), Mt("KindC", "BodyC", K("Beta", `"x"`), K("Alpha", `"y"`)))}, common()...)...))
 	out = append(out, prog("P5/forward-refs", Root("Msg", Ob("Zed", ""), Sc("u16", "Kind"), Mt("Kind", "Body", K("Yod", "1"), K("Zed", "2"))),
 		Pk("Zed", Ob("Yod", "")), Pk("Yod", Sc("u8", "Y"))))
 	for _, p := range out {
